@@ -172,6 +172,8 @@ theorem step_grows (bodies : List (List Char)) (k k' : List K) (s s' : State)
   · rw [← h.2]; exact Grows.refl _
   · rw [← h.2]; exact Grows.refl _
   · rw [← h.2]; exact grows_of_eq rfl rfl
+  · rw [← h.2]; exact Grows.refl _
+  · rw [← h.2]; exact grows_of_eq rfl rfl
 
 theorem step_app_gen (bodies : List (List Char)) (k : List K) (s : State) (S : List Byte)
     (h : ∀ ws here k0, k = .cmd (.simple ws here) :: k0 →
@@ -191,6 +193,7 @@ theorem step_app_gen (bodies : List (List Char)) (k : List K) (s : State) (S : L
       | group b => rfl
       | subsh b => rfl
       | andor l a r => rfl
+      | neg c => rfl
     | branch t e he =>
       by_cases h0 : s.status = 0 <;> cases he <;> simp [step, h0, State.app]
     | andK a r =>
@@ -201,6 +204,7 @@ theorem step_app_gen (bodies : List (List Char)) (k : List K) (s : State) (S : L
       · simp [step, h0, State.app]; intro h1; simp at h0; exact absurd h0 h1
     | loopBack u c b => rfl
     | restore sv => rfl
+    | negK => rfl
 
 theorem step_app (bodies : List (List Char)) (k k' : List K) (s s' : State) (S : List Byte)
     (h : step bodies k s = some (k', s')) (he : s'.hitEof = false) :
